@@ -164,9 +164,11 @@ impl System for IndSys {
 		} else {
 			(0..n).map(|i| (i, 0)).collect()
 		};
-		v.push((n, if self.flat && s.trend != 1 { 1 } else { 0 }));
+		// with the zigzag symbols a steady trend may also be started (free) right after c0
+		let free_start = self.zigzag && depth == 1;
+		v.push((n, if self.flat && s.trend != 1 && !free_start { 1 } else { 0 }));
 		if s.prev.low > 2.0 {
-			v.push((n + 1, if self.flat && s.trend != -1 { 1 } else { 0 }));
+			v.push((n + 1, if self.flat && s.trend != -1 && !free_start { 1 } else { 0 }));
 		}
 		if self.zigzag {
 			// trend codes: 2 / -2 = last step of a rising zigzag was +2 / -1; 3 / -3 = falling zigzag -2 / +1
